@@ -580,3 +580,92 @@ def _has_call(t, suffix):
         return True
     mir.walk(t, v)
     return bool(hit)
+
+
+# ---------------------------------------------------------------------------------------------------------------------
+# R-LAT-ARG-KIND (C01, C05): what is handed to an auxiliary-latitude conversion is an angle
+
+ANGLE_MAKERS = ("::asin", "::acos", "::atan", "::atan2", "::to_radians", "gudermannian::fwd")
+
+
+@rule("R-LAT-ARG-KIND", ["C01", "C05"])
+def r_lat_arg_kind(cx):
+    """Every call of Latitudes::latitude_*(x, ..) in the operators passes an *angle* x: a coordinate or parameter, the
+    result of an inverse trigonometric function, or a sum / signed multiple of such. An arithmetic expression made of
+    lengths and ratios only (`1 - rho^2 / (a^2 qp)`: the *sine* of the authalic latitude) is not an angle; handing it
+    to the conversion silently treats a sine as the angle itself."""
+    n = 0
+    for name in sorted(cx.f.lib["fns"]):
+        if not name.startswith("inner_op::") or "::tests::" in name:
+            continue
+        f = cx.f.fn(name)
+        k = 0
+        for bb, t in f.calls():
+            c = t.get("callee") or f.callee(t) or ""
+            if "Latitudes::latitude_" not in c or "coefficients" in c:
+                continue
+            a = f.arg_terms(bb)
+            if len(a) < 2:
+                continue
+            x = a[1]
+            n += 1
+            ok = _is_angle(x)
+            cx.ob("R-LAT-ARG-KIND", "%s/call%d" % (name, k), ok,
+                  "%s passes an angle to %s" % (name, c.rsplit("::", 1)[-1]) if ok else
+                  "%s passes the arithmetic expression %s to %s: no inverse trigonometric function, coordinate or "
+                  "angular parameter enters it, so it is a ratio (a sine), not the angle the conversion expects" % (
+                      name, mir.show(x)[:70], c.rsplit("::", 1)[-1]), cx.where(t["span"]))
+            k += 1
+    cx.count("R-LAT-ARG-KIND", "calls", n)
+
+
+K_PP = "op::parsed_parameters::ParsedParameters"
+
+
+def _is_read(y):
+    return y[0] == "call" and isinstance(y[1], str) and (
+        y[1].endswith(("get_coord", "::xy", "::xyz", "::xyzt")) or y[1].startswith(K_PP + "::"))
+
+
+def _has_coord_read(t):
+    hit = []
+
+    def v(y):
+        if y[0] == "call" and isinstance(y[1], str) and y[1].endswith(("get_coord", "::xy", "::xyz", "::xyzt")):
+            hit.append(1)
+            return False
+        return not hit
+    mir.walk(t, v)
+    return bool(hit)
+
+
+def _is_angle(t, depth=0):
+    """angle-ness flows through sums, negation and multiplication by a scalar that does not depend on the tuple"""
+    t = mir.strip_refs(t)
+    if depth > 30:
+        return False
+    if t[0] == "cast":
+        return _is_angle(t[2], depth + 1)
+    if t[0] == "call" and isinstance(t[1], str):
+        if t[1].endswith(ANGLE_MAKERS):
+            return True
+        if _is_read(t):
+            return True
+        if t[1].rsplit("::", 1)[-1] in ("clone", "unwrap", "unwrap_or", "copysign", "abs", "neg") and t[2]:
+            return _is_angle(t[2][0], depth + 1)
+        return False
+    if t[0] == "proj":
+        return _is_angle(t[1], depth + 1)
+    if t[0] == "un":
+        return _is_angle(t[2], depth + 1)
+    if t[0] == "phi":
+        return all(_is_angle(x, depth + 1) for x in t[2])
+    if t[0] == "bin":
+        a, b = t[2], t[3]
+        if t[1] in ("Add", "Sub"):
+            return _is_angle(a, depth + 1) or _is_angle(b, depth + 1)
+        if t[1] == "Mul":
+            return (_is_angle(a, depth + 1) and not _has_coord_read(b)) or (_is_angle(b, depth + 1) and not _has_coord_read(a))
+        if t[1] == "Div":
+            return _is_angle(a, depth + 1) and not _has_coord_read(b)
+    return False
